@@ -53,12 +53,15 @@ impl FromStr for Pattern {
 #[derive(Default)]
 pub struct PatternOpts {
     case_insensitive: bool,
+    /// `.` matches a line feed too; set for patterns translated from globs
+    dot_matches_new_line: bool,
 }
 
 impl PatternOpts {
     pub fn case_insensitive() -> PatternOpts {
         PatternOpts {
             case_insensitive: true,
+            dot_matches_new_line: false,
         }
     }
 }
@@ -90,9 +93,17 @@ impl Pattern {
         let pattern = pattern.to_string();
 
         let anchored_regex = "^".to_string() + &pattern + "$";
-        let anchored_regex = Regex::new(anchored_regex.as_str(), opts.case_insensitive);
+        let anchored_regex = Regex::with_options(
+            anchored_regex.as_str(),
+            opts.case_insensitive,
+            opts.dot_matches_new_line,
+        );
         let prefix_regex = "^".to_string() + &pattern;
-        let prefix_regex = Regex::new(prefix_regex.as_str(), opts.case_insensitive);
+        let prefix_regex = Regex::with_options(
+            prefix_regex.as_str(),
+            opts.case_insensitive,
+            opts.dot_matches_new_line,
+        );
 
         match anchored_regex {
             Ok(anchored_regex) => Ok(Pattern {
@@ -139,6 +150,12 @@ impl Pattern {
     ///
     pub fn glob_with(glob: &str, opts: &PatternOpts) -> Result<Pattern, PatternError> {
         let result: IResult<&str, String> = Self::glob_to_regex(Scope::TopLevel, glob);
+        // `**` is translated to `.*`, which must match any character, a line feed in a
+        // file name included
+        let opts = &PatternOpts {
+            case_insensitive: opts.case_insensitive,
+            dot_matches_new_line: true,
+        };
         match result {
             Ok(("", regex)) => Self::from_unanchored_regex(regex.as_str(), opts),
             Ok((remaining, _)) => Err(PatternError {
@@ -303,6 +320,8 @@ impl Add<Pattern> for Pattern {
         let opts = PatternOpts {
             case_insensitive: self.anchored_regex.is_case_insensitive()
                 || rhs.anchored_regex.is_case_insensitive(),
+            dot_matches_new_line: self.anchored_regex.dot_matches_new_line()
+                || rhs.anchored_regex.dot_matches_new_line(),
         };
         Pattern::from_unanchored_regex(regex.as_str(), &opts).unwrap()
     }
